@@ -1147,3 +1147,45 @@ def mon_c11(case):
                 return step, "clear left counters or doorkeeper bits behind"
             tiny = ntiny
     return None
+
+
+def mon_c04(case):
+    """ownership ledger of the harness on the implementation alone: nothing dropped twice; after every call the
+    tracked keys and values still alive are exactly those of the retained entries; purge retains nothing;
+    dropping the cache releases every retained key and value once, every heap block, and damages no freed memory"""
+    kind = case["kind"]
+    if kind not in LAYOUT:
+        return None
+    retained = 0
+    for step, (op, out, cb, acct, snap) in enumerate(case["lines"], 1):
+        if not op or op[0] == 98 or out == [-1000]:
+            continue
+        if op[0] == 99:
+            if len(out) >= 6:
+                dk, dv, dd, live, blocks, poison = out[:6]
+                if dd:
+                    return step, f"dropping the cache dropped {dd} object(s) twice"
+                if dk != retained or dv != retained:
+                    return step, f"dropping the cache released {dk} keys and {dv} values but it retained {retained} entries"
+                if live:
+                    return step, f"{live} keys/values are still alive after the cache was dropped (leak)"
+                if blocks:
+                    return step, f"{blocks} heap blocks allocated by the cache were not freed when it was dropped"
+                if poison:
+                    return step, "freed memory was written to (poison damaged)"
+            continue
+        p = parse_snap(kind, snap)
+        if p is None:
+            return step, "unreadable snapshot"
+        _, lists, _, _ = p
+        retained = sum(len(l) for l in lists)
+        if len(acct) >= 4:
+            dd, live = acct[2], acct[3]
+            if dd:
+                return step, f"call {op[:4]} dropped {dd} key/value object(s) twice"
+            if live != 2 * retained:
+                return step, (f"after call {op[:4]} {live} tracked keys/values are alive but the cache retains {retained} entries "
+                              f"(= {2 * retained} objects): {'leak' if live > 2 * retained else 'an object reachable through the cache was dropped'}")
+        if op[0] == 7 and retained:
+            return step, f"purge left {retained} entries retained"
+    return None
